@@ -1,5 +1,6 @@
 import CollectionsC.Proofs.HashTableDerived
 import CollectionsC.Proofs.HashTableLedger
+import CollectionsC.Proofs.HashTableNamed
 /-! # C14 / C15 (hash part) — `get_keys` / `get_values` and the configured allocators
 
 C15: the arrays returned by `cc_hashtable_get_keys/get_values` hold exactly the keys / values of the
@@ -64,6 +65,25 @@ theorem snapshots_use_table_allocator (c : HCfg) (t : HashTable) (m : Mem) (h : 
   have k1 := ((HashTable.collect_spec c t (t.walk.map (fun e => encKey e.key)) m h (by rw [hw, List.length_map]; omega) hbig).2 hpos).2.2.2.2.1
   have k2 := ((HashTable.collect_spec c t (t.walk.map (·.value)) m h (by rw [hw, List.length_map]; omega) hbig).2 hpos).2.2.2.2.1
   exact ⟨k1, k2⟩
+
+/-- `derived_can_grow`: a following append on the (exactly full) result succeeds whenever the
+allocator does not refuse, and refines append -/
+theorem derived_can_grow (c : HCfg) (t : HashTable) (m m2 : Mem) (h : t.Inv c) (a : DArr) (x : Nat)
+    (hbig : 3 * t.size ≤ Gen.CC_MAX_ELEMENTS) (ha : (t.getKeys c m).2.1 = some a) (hs : m2.sched = []) :
+    (a.add c x m2).1 = .ok ∧ (a.add c x m2).2.1.contents = (Map.keys t.abs).map encKey ++ [x] := by
+  obtain ⟨r1, r2, r3, _⟩ := HashTable.getKeys_spec c t m h a hbig ha
+  have hmax : a.cap < Gen.CC_MAX_ELEMENTS := by
+    rw [r3]; have : 0 < Gen.CC_MAX_ELEMENTS := by decide
+    omega
+  obtain ⟨g1, g2, _⟩ := snapshot_can_grow c a x m2 r2 hmax hs
+  exact ⟨g1, by rw [g2, r1]⟩
+
+/-- `source_unchanged` / `independent`: the builders take the table by value and return no table —
+the source is literally the same value afterwards; and no later history on the table can change an
+array already built, nor the other way round (both are values of the model; the aliasing question
+for the two heap objects is answered by the harness runs with `focus="derived"`) -/
+theorem independent (c : HCfg) (t : HashTable) (a : DArr) (ops : List Spec.Map.Op) (x : Nat) (m : Mem) :
+    (a, (t.run c ops m).2.2.1).1 = a ∧ (t, (a.add c x m).2.1).1 = t := ⟨rfl, rfl⟩
 
 /-- non-vacuity -/
 example : ((HashTable.mk 2 2 2 [[⟨none, 9, 0⟩], [⟨some 1, 11, 7⟩]]).getKeys ⟨fun _ => 7, fun c => c, fun c => c * 2⟩ { live := 4 }).2.1.map (·.contents)
